@@ -113,3 +113,46 @@ def apply(obj, kind, index, variant):
     else:
         raise KeyError(variant)
     return obj
+
+
+# ---------------------------------------------------------------------------
+# instance trees (Model/Schema.v inst) of requests, for the C13 judgement inside the C10 model (Model/RequestValid.v)
+# ---------------------------------------------------------------------------
+def inst_of_xml(kind, xml):
+    """the instance tree <msgtype>_from_string makes of the text, as a Coq term (INone: not this kind's root)"""
+    import schema_gen
+    from saml2_tophat import samlp, create_class_from_xml_string
+    T, _B = _tables()
+    try:
+        obj = create_class_from_xml_string(getattr(samlp, KIND_CLASS[kind]), xml)
+    except Exception:
+        obj = None
+    return schema_gen.obj_to_coq(T, obj)
+
+
+WITNESS_SITE = "scoping/idp_list/idp_entry@provider_id"
+
+
+def regen_insts():
+    """coq/Gen/RequestInst.v: the instance trees of one enriched AuthnRequest - good, ID="", and two levels below Scoping
+    IDPEntry ProviderID="" / absent - built by the library's own classes and parsed back from the text, with the class
+    and member numbers of THIS run's Gen/SchemaTables.v (witnesses of Props/C10.v (9))"""
+    import reqgen as g
+    from core import COQ, write_if_changed
+    translate_schema.regen()                       # Gen/SchemaTables.v follows the working tree on a C10 run as well
+    _S.clear()
+    ss = sites("authn")
+    deep = [i for i, s in enumerate(ss) if s["label"] == WITNESS_SITE]
+    root = [i for i, s in enumerate(ss) if s["label"] == "@id"]
+    if not deep or not root:
+        raise KeyError("the witness sites are gone from the reflected tables: %s" % [s["label"] for s in ss])
+
+    def term(i, variant):
+        r = dict(g.rspec(kind="authn"), site=[i, variant])
+        return inst_of_xml("authn", str(g.build_request(r)))
+    text = ("(* GENERATED from /repo by harness/c10_empty.py on every run - do not edit *)\n"
+            "From PV Require Import Lib.Base Model.Schema.\nOpen Scope N_scope.\n\n"
+            "Definition ri_good : inst := %s.\nDefinition ri_empty_root : inst := %s.\n"
+            "Definition ri_empty_deep : inst := %s.\nDefinition ri_absent_deep : inst := %s.\n"
+            % (term(deep[0], "base"), term(root[0], "empty"), term(deep[0], "empty"), term(deep[0], "absent")))
+    return write_if_changed(COQ + "/Gen/RequestInst.v", text)
